@@ -417,6 +417,12 @@ def family_locality(rng, fid):
     Gs = [wg.num(rng, 0.05, 0.9) for _ in range(n)]
     Rm = wg.rnd(wg.rot_matrix(rng))
 
+    # model LISTS: behind the model that sets the value, models that leave it alone (a range that is never reached, a composition model
+    # for another composition with 'replace defined only'): each model of a section must continue from the value the previous model of
+    # the SAME section produced; the expected values stay Ts / Cs / Vs
+    lists = rng.random() < 0.5
+    kmin, kmax = wg.range_keys(ftype)
+
     def section(k, mod=None):
         segs = copy.deepcopy(f['segments'])
         sec = {'coordinate': k, 'segments': segs,
@@ -424,6 +430,12 @@ def family_locality(rng, fid):
                'composition models': [{'model': 'uniform', 'compositions': [0], 'fractions': [Cs[k]]}],
                'velocity models': [{'model': 'uniform raw', 'velocity': list(Vs[k])}],
                'grains models': [{'model': 'uniform', 'compositions': [0], 'grain sizes': [Gs[k]], 'rotation matrices': [Rm]}]}
+        if lists:
+            sec['temperature models'].append({'model': 'uniform', 'temperature': 999.0, kmin: wg.R(10.0 * thick), kmax: wg.R(11.0 * thick)})
+            sec['composition models'].append({'model': 'uniform', 'compositions': [1], 'fractions': [wg.R(0.5 + 0.01 * k)], 'operation': 'replace defined only'})
+            if k % 2 == 0:
+                sec['composition models'].append({'model': 'uniform', 'compositions': [0], 'fractions': [0.123], kmin: wg.R(10.0 * thick), kmax: wg.R(11.0 * thick)})
+            sec['velocity models'].append({'model': 'uniform raw', 'velocity': [9.0, 9.0, 9.0], kmin: wg.R(10.0 * thick), kmax: wg.R(11.0 * thick)})
         if mod == 'thickness':
             for s in segs:
                 s['thickness'] = [wg.R(x * 0.7) for x in s['thickness']]
@@ -489,7 +501,7 @@ def family_locality(rng, fid):
     for (j, (sx, sy, d)) in normal_pts:
         ib = c.add('bez_close', 1, 'c', core.hx(sx), core.hx(sy))
         plan.append(('normal', (sx, sy, d), ib, q3(c, 1, ctx, sx, sy, d, PROPS), q3(c, 2, ctx, sx, sy, d, PROPS), j))
-    return c, {'kind': 'locality', 'plan': plan, 'fid': fid, 'k': k, 'mod': mod, 'Ts': Ts, 'Cs': Cs, 'Vs': Vs, 'Gs': Gs, 'n': n, 'features': (w0, w1), 'collinear': collinear, 'ftype': ftype}
+    return c, {'kind': 'locality', 'plan': plan, 'fid': fid, 'k': k, 'mod': mod, 'Ts': Ts, 'Cs': Cs, 'Vs': Vs, 'Gs': Gs, 'n': n, 'features': (w0, w1), 'collinear': collinear, 'ftype': ftype, 'lists': lists}
 
 
 def check_equivalence(V, c, t):
@@ -566,7 +578,15 @@ def check_locality(V, c, t):
                     lo, hi = min(Vs[sec][a], Vs[sec + 1][a]), max(Vs[sec][a], Vs[sec + 1][a])
                     if not (lo - 1e-7 <= v[24 + a] <= hi + 1e-7):
                         V.violation('interpolation:velocity-not-between-the-adjacent-sections', dict(detail, component=a, velocity=v[24:27], bounds=(lo, hi)))
+                if t['collinear'] and 0.0 <= frac <= 1.0:
+                    # on a collinear trench the along-strike fraction of the kernel is the weight of the linear combination
+                    for name, got, a0, a1, tol in (('temperature', v[0], Ts[sec], Ts[sec + 1], 1e-6 * max(Ts)), ('composition', v[1], Cs[sec], Cs[sec + 1], 1e-6)):
+                        want = a0 + frac * (a1 - a0)
+                        if abs(got - want) > tol:
+                            V.violation('interpolation:%s-differs-from-the-linear-combination-at-the-trench-fraction' % name, dict(detail, got=got, expected=want, lists=t.get('lists')))
                 if kind == 'normal':
+                    if abs(v[1] - Cs[j]) > 1e-7:
+                        V.violation('interpolation:section-composition-not-attained-at-its-coordinate', dict(detail, C=v[1], expected=Cs[j], coordinate=j))
                     if max(abs(v[24 + a] - Vs[j][a]) for a in range(3)) > 1e-7:
                         V.violation('interpolation:section-velocity-not-attained-at-its-coordinate', dict(detail, velocity=v[24:27], expected=Vs[j], coordinate=j))
                     if abs(v[0] - Ts[j]) > 1e-6 + 1e-7 * Ts[j]:
